@@ -615,8 +615,8 @@ impl<'a> Walker<'a> {
                     let pad = if rem == 0 {
                         let i = self.aligned_aligns;
                         self.aligned_aligns += 1;
-                        // the documentation promises the alignment only: both "no padding" and "a full n" are correct
-                        if self.align_choices.get(i).copied().unwrap_or(true) {
+                        // already aligned: the program counter does not have to move
+                        if self.align_choices.get(i).copied().unwrap_or(false) {
                             n
                         } else {
                             0
@@ -1099,6 +1099,8 @@ pub fn check_image(prog: &Program, image: &[SegOut], opts: &Options) -> Result<M
 /// check_image with the `.align`-at-aligned-address ambiguity resolved by trying both readings
 pub fn check_image_all(prog: &Program, image: &[SegOut], default_pc: i64) -> Result<ModelOut, CheckErr> {
     let first = check_image(prog, image, &Options { default_pc, align_choices: vec![], active_test: None });
+    // (until `.align` at an aligned address stopped emitting n bytes, both readings were accepted here)
+    let accept_full_padding = false;
     let k = match &first {
         Ok(m) => return Ok(m.clone()),
         Err(CheckErr::Unsupported(_)) => return first,
@@ -1107,7 +1109,7 @@ pub fn check_image_all(prog: &Program, image: &[SegOut], default_pc: i64) -> Res
             count_aligned(prog, image, default_pc)
         }
     };
-    if k == 0 || k > 8 {
+    if !accept_full_padding || k == 0 || k > 8 {
         return first;
     }
     for bits in 1u32..(1 << k) {
